@@ -57,6 +57,44 @@ theorem C01_witness_after_panic :
     ¬ C01_statement_at 8 10 [⟨0, .src .param⟩] [.set 0 5, .call 0 0, .rem 0, .call 0 0, .call 0 0] :=
   fun H => absurd (H [.set 0 5, .call 0 0, .rem 0, .call 0 0] 0 0 [] rfl) (by decide +kernel)
 
+/-- Consequence of F22 (and the reason why `CleanCalls` alone is not enough for nested programs):
+a node that registered itself on the caller's frame while a callee was being verified is re-executed
+first when the caller is verified again — here after its source was removed — and the call panics,
+although the from-scratch evaluation of the call succeeds (`g` no longer reaches the stale node). -/
+theorem C01_witness_stale_dep_panic :
+    ¬ C01_statement_at 8 10
+        [⟨0, .call 1 .param⟩, ⟨0, .ite (.src (.lit 5)) (.call 2 .param) (.lit 0)⟩, ⟨0, .src .param⟩]
+        [.set 5 1, .set 0 3, .set 9 0, .call 1 0, .set 9 1, .call 0 0, .set 5 0, .rem 0, .call 0 0] :=
+  fun H => absurd (H [.set 5 1, .set 0 3, .set 9 0, .call 1 0, .set 9 1, .call 0 0, .set 5 0, .rem 0] 0 0 [] rfl)
+    (by decide +kernel)
+
+/-! ### what is proved -/
+
+/-- **Stage 1** (nesting depth 0).  Extra hypotheses, both explicit: `Flat P` — no body calls a
+memoised function; `CleanCalls` — the from-scratch evaluation of every call of the history, at the
+moment of the call, succeeds without reading an absent source, singleton or tracked counter (this is
+what excludes F1/F2 and caught panics).  The history is otherwise arbitrary: set / remove of keyed
+sources and singletons, tracked inserts / removes, calls with every parameter shape, lookups,
+retain / clear / never-gc and collections with any capacity.  Then every call answers exactly the
+from-scratch value (or `dead`, after a collector panic — C03's business). -/
+theorem C01_stage1_partial (fuel cap : Nat) (P : Prog) (h : List Op) (hflat : Flat P)
+    (hclean : CleanCalls fuel cap P h) : C01_statement_at fuel cap P h := by
+  intro pre f a rest hh
+  rcases c01_stage1 hflat fuel cap h hclean pre f a rest hh with hd | hv
+  · exact Or.inr (Or.inr (Or.inr hd))
+  · exact Or.inl hv
+
+/- Non-vacuity: a flat program reading a keyed source, a singleton and a tracked field, and a
+history with an absent-then-present key, equal and unequal writes, remove-then-set, retain and two
+collections with capacity 1, all of whose calls are clean. -/
+def progS1 : Prog := [⟨0, .add (.src .param) (.sing 0)⟩, ⟨2, .trk 1⟩, ⟨1, .ite (.eq (.src .param) (.lit 3)) (.lit 1) (.half (.src (.lit 0)))⟩]
+def histS1 : List Op :=
+  [.set 0 4, .sset 0 1, .tins 1 5, .call 0 0, .call 1 0, .set 0 4, .call 0 0, .set 0 3, .call 2 0, .gc, .call 0 0,
+   .rem 0, .set 0 7, .retain 2 0, .call 2 0, .tins 1 6, .call 1 0, .gc, .sset 0 2, .call 0 0, .look 2 0]
+
+example : Flat progS1 ∧ CleanCalls 4 1 progS1 histS1 :=
+  ⟨by decide, cleanCalls_of_B 4 1 progS1 histS1 (by decide +kernel)⟩
+
 /-- `C01_statement` is therefore false. -/
 theorem C01_statement_false : ¬ C01_statement :=
   fun H => C01_witness_absent_singleton (H 8 10 _ _)
